@@ -30,9 +30,9 @@ func init() {
 			"the gate at waitcond.park holds the waiter with its lock held, exactly as a descheduled goroutine would be; gates fall through after a bound",
 		},
 		Families: []core.Family{
-			{Name: "get-directed", N: core.TierN(560, 5600), Batch: 28, Run: c05GetDirected},
-			{Name: "waitcond-directed", N: core.TierN(400, 4000), Batch: 40, Run: c05WaitCondDirected},
-			{Name: "get-stress", N: core.TierN(80, 800), Batch: 5, Run: c05Stress},
+			{Name: "get-directed", N: core.TierN(560, 22400), Batch: 28, Run: c05GetDirected},
+			{Name: "waitcond-directed", N: core.TierN(400, 16000), Batch: 40, Run: c05WaitCondDirected},
+			{Name: "get-stress", N: core.TierN(80, 3200), Batch: 5, Run: c05Stress},
 		},
 	})
 }
